@@ -26,6 +26,13 @@ let op_of (tbl : n list array) (t : string) : op option =
       let r = rest t in
       let ids = if r = "" then [] else List.map int_of_string (String.split_on_char ',' r) in
       Some (Create (PNodes (List.map value ids)))
+  | 'F' ->
+      let r = rest t in
+      let items = if r = "" then [] else String.split_on_char ',' r in
+      let node it =
+        let v = value (int_of_string (rest it)) in
+        match it.[0] with 't' -> FText v | 'e' -> FElem v | _ -> FComment v in
+      Some (Create (PFrag (List.map node items)))
   | 'S' -> Some (Create (PStr (value (int_of_string (rest t)))))
   | 'D' ->
       let r = rest t in
